@@ -4,6 +4,7 @@
    that the side conditions are needed. *)
 From Coq Require Import String Ascii Arith Bool List Reals QArith Qcanon.
 From ESRV Require Import Common.Py Gen.GenCancel Model.InvSubsText Model.SubsCancel Proofs.InvSubsTextProofs Proofs.SubsCancelProofs Proofs.CancelGenProofs Proofs.CancelGenericProofs Gen.GenRequote Proofs.RequoteGenProofs.
+From ESRV Require Gen.GenAllDup Proofs.AllDupGenProofs.
 Import ListNotations.
 Open Scope nat_scope.
 
@@ -101,6 +102,21 @@ Theorem C17_all_dup_spec : forall (k : nat) (s : sub),
   (exists i j, i < k /\ j < k /\ i <> j /\ s = swap i j).
 Proof. exact all_dup_spec. Qed.
 Print Assumptions C17_all_dup_spec.
+
+(* ... of the CODE: get_all_dup_code is regenerated on every run from simplifier.get_all_dup (harness/translate/alldup.py; the printed
+   dicts str({a: -a}), str({a: 1/a}), str({a_i: a_j, a_j: a_i}) are the constructors of [sub]).  It never raises and returns the model's
+   list, in the model's order, for every max_param; so the list the cancellation theorems quantify over is the one the code builds. *)
+Theorem C17_code_all_dup_is_model : forall k, GenAllDup.get_all_dup_code k = Some (all_dup k).
+Proof. exact AllDupGenProofs.all_dup_code_is_model. Qed.
+Print Assumptions C17_code_all_dup_is_model.
+Theorem C17_code_all_dup_spec : forall (k : nat) (s : sub),
+  (exists l, GenAllDup.get_all_dup_code k = Some l /\ In s l) <->
+  (exists i, i < k /\ (s = SNeg i \/ s = SInv i)) \/
+  (exists i j, i < k /\ j < k /\ i <> j /\ s = swap i j).
+Proof. exact AllDupGenProofs.all_dup_code_spec. Qed.
+Print Assumptions C17_code_all_dup_spec.
+Example C17_ex_code_all_dup2 : GenAllDup.get_all_dup_code 2 = Some [SNeg 0; SNeg 1; SInv 0; SInv 1; swap 1 0; swap 0 1].
+Proof. vm_compute. reflexivity. Qed.
 
 (* members of all_dup are involutions as simultaneous substitutions (reals;
    reciprocal where defined) *)
